@@ -1,4 +1,5 @@
 import Originium.Model.DiskProgMain
+import Originium.Model.DBTie
 /-! # C04 — after a crash every transaction is visible completely or not at all (process-crash model)
 
 In an accepted trace a transaction reaches the disk by exactly one event `commit id b` carrying its
@@ -66,9 +67,21 @@ theorem C04_program_one_write {t : TSt} {m m' : Prog.Mem} {id : Nat} {b : List E
     · cases h
   · cases h
 
+
+/-- the Go code itself (`DB.rawset`, translated from /repo/db.go on every run): the whole batch of a transaction is
+    written (one `memtable.set` call: one wal batch) before anything else happens, and the memtable is rotated only
+    after it, never in the middle of a batch -/
+theorem C04_code_batch_then_rotation (size threshold : Nat) :
+    (GenDB.rawset size threshold []).head? = some "memtable.set batch" ∧
+    ((GenDB.rawset size threshold []).filter (· == "memtable.set batch")).length = 1 ∧
+    ("memtable.freeze" ∈ GenDB.rawset size threshold [] ↔ threshold ≤ size) := by
+  rw [DBTie.rawset_table]
+  by_cases h : threshold ≤ size <;> simp [h] <;> decide
+
 #print axioms C04_all_or_nothing
 #print axioms C04_written_visible
 #print axioms C04_split_commit_witness
 #print axioms C04_program_all_or_nothing
 #print axioms C04_program_one_write
+#print axioms C04_code_batch_then_rotation
 end Props
